@@ -15,6 +15,8 @@ import (
 	"strings"
 	"testing"
 
+	"github.com/yuin/goldmark/ast"
+	"github.com/yuin/goldmark/text"
 	"pgregory.net/rapid"
 
 	"verif/gen"
@@ -126,18 +128,38 @@ func classify(c *kit.Case, err error) string {
 // F31: the input ends, without a line ending, in a line that is blank once the container markers are removed
 // (only '>' markers and spaces/tabs) while a fenced code block is open inside the container: the blank content
 // line is lost (quote: the marker line is consumed whole and the child never sees an empty line) or keeps one
-// byte of the indentation (list item: Continue advances len(line)-1 assuming a line ending). Signature: that
-// shape of the last line, and the two outputs agree once the white space directly in front of every
+// byte of the indentation (list item: Continue advances len(line)-1 assuming a line ending). Signature: the last
+// line is made of quote markers (each with at most one following space/tab), or is blank with the fenced block
+// inside a list item, and the two outputs agree once the white space directly in front of every
 // "</code></pre>" is removed.
-var reMarkerOnlyLastLine = regexp.MustCompile(`(^|\n)[ \t>]*$`)
+var reMarkerOnlyLastLine = regexp.MustCompile(`(^|\n)[ \t]*(>[ \t]?)+$`)
+var reBlankLastLine = regexp.MustCompile(`(^|\n)[ \t]+$`)
+
+// inListItem: the last fenced code block of the document sits inside a list item
+func lastFenceInListItem(cfg gen.Config, src []byte) bool {
+	doc := cfg.MD().Parser().Parse(text.NewReader(src))
+	var last ast.Node
+	_ = ast.Walk(doc, func(n ast.Node, entering bool) (ast.WalkStatus, error) {
+		if entering && n.Kind() == ast.KindFencedCodeBlock {
+			last = n
+		}
+		return ast.WalkContinue, nil
+	})
+	for p := last; p != nil; p = p.Parent() {
+		if p.Kind() == ast.KindListItem {
+			return true
+		}
+	}
+	return false
+}
 var reCodeTail = regexp.MustCompile(`[ \t\n]*</code></pre>`)
 
 func classifyEOL(c *kit.Case) string {
 	src := c.Bytes["src"]
-	if !reMarkerOnlyLastLine.Match(src) {
+	cfg := gen.ParseConfig(c.Config)
+	if !reMarkerOnlyLastLine.Match(src) && !(reBlankLastLine.Match(src) && lastFenceInListItem(cfg, src)) {
 		return ""
 	}
-	cfg := gen.ParseConfig(c.Config)
 	var a, b bytes.Buffer
 	_ = cfg.MD().Convert(src, &a)
 	_ = cfg.MD().Convert(append(append([]byte{}, src...), '\n'), &b)
